@@ -175,7 +175,7 @@ def twin_scripts(rng, n):
     return res
 
 
-INTERVAL_PROPS = {"C01", "C03", "C10", "C12", "C13", "C14"}
+INTERVAL_PROPS = {"C01", "C10", "C13", "C14"}
 
 
 # ------------------------------------------------------------------------------------------- running
